@@ -265,9 +265,12 @@ class Eng:
             self.built = self.factory._build_operator_table(self.factory._name_generator())
         except exceptions.InvalidOperatorTableException:
             self.built = None
-        self.engine = None
+        self.engine, self.create_error = None, None
         if self.built is not None:
-            self.engine = self.factory.create()
+            try:
+                self.engine = self.factory.create()
+            except Exception as e:      # ply refuses the grammar / precedence list
+                self.create_error = "%s: %s" % (type(e).__name__, e)
             self.name2sym = {v[2]: k for k, v in self.built.operators.items()}
         self.spec_ops = {"default": SPEC_DEFAULT, "legacy": SPEC_LEGACY}.get(kind) if not calls else None
 
@@ -510,6 +513,30 @@ def gen_pairs(eng, rng, nops, max_prefix, sample=None):
             if i < nops:
                 parts.append(bins[i])
         yield join(rng, parts, wild=rng.random() < 0.3)
+
+
+def gen_focus(eng, rng):
+    """every (prefix, binary), (binary, suffix), (prefix, suffix), (suffix, binary) and (prefix/suffix, index)
+    combination once: the places where the unary roles' ranks decide"""
+    V = TableView(eng)
+    for p in V.prefix:
+        for o in V.binary:
+            yield join(rng, [p, "a", o, "b"])
+            yield join(rng, ["a", o, p, "b", o, "c"])
+        for s_ in V.suffix:
+            yield join(rng, [p, "a", s_])
+        if V.has_index:
+            yield join(rng, [p, "a", "[", "1", "]"])
+    for s_ in V.suffix:
+        for o in V.binary:
+            yield join(rng, ["a", o, "b", s_])
+            yield join(rng, ["a", s_, o, "b"])
+        if V.has_index:
+            yield join(rng, ["a", s_, "[", "1", "]", s_])
+    for o in V.binary:
+        if V.has_index:
+            yield join(rng, ["a", o, "b", "[", "1", "]"])
+        yield join(rng, ["a", o, "f(", "b", ")", o, "c"])
 
 
 def gen_expr(V, rng, depth):
@@ -807,8 +834,23 @@ def insert_violation(before, c, after):
     return None
 
 
+# tables built in every run (besides the random ones): a prefix operator inside the right-associative
+# group, a tighter right-associative group with its own prefix operator, suffix operators in a group
+# of their own (tightest / loosest), an operator with alias, a symbol that is prefix and binary
+FIXED = [
+    ("default", [("->", True, "!", P, False, None)]),
+    ("default", [(".", True, "**", R, True, "power"), ("**", True, "~", P, False, None)]),
+    ("default", [("-", False, "!", S, True, None), ("!", False, "?", S, False, "maybe")]),
+    ("default", [("->", True, "!!", S, True, None), ("or", True, "xor", L, False, None)]),
+    ("legacy", [("=>", True, "|", R, True, None), ("|", True, "~", P, False, None), ("not", False, "!", P, False, "bang")]),
+    ("default", [(None, False, "@", L, True, None), ("*", True, "!", L, False, None), ("not", False, "!", P, True, None)]),
+]
+
+
 def engines_for(run, n_random):
-    engs = [Eng("default"), Eng("legacy")]
+    engs = [Eng("default"), Eng("legacy")] + [Eng(k, c) for k, c in FIXED]
+    for e in engs:
+        e.mixed = False
     for i in range(n_random):
         base = "legacy" if run.rng.random() < 0.25 else "default"
         mixed = run.rng.random() < 0.2
@@ -830,6 +872,8 @@ def load_corpus():
 def texts_for(run, eng, idx):
     """(where, text) for one engine"""
     rng = run.rng
+    for t in gen_focus(eng, rng):
+        yield "focus", t
     if idx < 2:                                     # default, legacy
         for t in gen_pairs(eng, rng, 2, 1):
             yield "pairs", t
@@ -858,6 +902,10 @@ def correspondence(run):
     global _engs
     engs = engines_for(run, run.n(12, 200))
     _engs = engs
+    for e in engs:
+        if e.create_error:
+            run.fail("violation", "factory.create() fails although _build_operator_table accepts the operator list",
+                     {"engine": e.spec(), "error": e.create_error, "ops": e.ops})
     check_tables(run, engs)
     for c in load_corpus():
         e = Eng(c["engine"]["kind"], c["engine"]["calls"])
@@ -877,6 +925,8 @@ def correspondence(run):
         flush(run, e, cases, meta)
     run.note("engines: default, legacy, %d built by insert_operator sequences (%d of them with mixed groups)"
              % (len(engs) - 2, sum(1 for e in engs[2:] if getattr(e, "mixed", False))))
+    run.note("of these %d are fixed tables (prefix operator inside the right-associative group, tighter "
+             "right-associative group, suffix groups, aliases, prefix+binary symbol)" % len(FIXED))
 
 
 def oracle(run, deep):
@@ -896,7 +946,7 @@ def oracle(run, deep):
             texts += list(gen_pairs(e, rng, 3, 1, sample=run.n(300, 20000) * (3 if deep else 1)))
             texts += list(gen_random(e, rng, run.n(400, 6000) * (3 if deep else 1)))
         else:
-            texts = list(gen_pairs(e, rng, 2, 1, sample=run.n(40, 300))) + list(gen_random(e, rng, run.n(40, 400)))
+            texts = list(gen_focus(e, rng)) + list(gen_pairs(e, rng, 2, 1, sample=run.n(40, 300))) + list(gen_random(e, rng, run.n(40, 400)))
         for text in texts:
             toks = e.lex(text)
             if toks is None or len(toks) > 40:
@@ -938,6 +988,8 @@ def shrink_text(eng, data):
 
 def replay(run, data):
     d = data["data"]
+    if "error" in d:
+        return Eng(d["engine"]["kind"], [tuple(c) for c in d["engine"]["calls"]]).create_error is None
     if "call" in d and "text" not in d:
         e = Eng(d["engine"]["kind"], [])
         before = [tuple(t) for t in d["before"]]
